@@ -257,3 +257,36 @@ def prepare(wl, ctx, stats):
     if np.array_equal(a.get_impedances(), c.get_impedances()):
         add(f"generate_mock_data({ident!r}) gives identical noise for seeds {seed} and {seed + 1}")
     return viols
+
+
+def fidelity(tier, seed):
+    """A handful of workloads through the real multiprocessing.Pool (2 and 4 processes), compared with
+    the simulated serial reference: shows that the stub's answers are the real pool's answers on the
+    fault-free path.  Evidence only."""
+    from simkit import batch, enginea
+    from simkit.decisions import run_seed
+    from simkit.runner import run_real
+
+    n = 6 if tier == "quick" else 40
+
+    def job(j):
+        rng = random.Random(run_seed(seed, "C17/fidelity", j))
+        kind = ["fit", "zhit", "kk_ext", "kk_cnls", "bht", "zhit"][j % 6]
+        wl = gen.GENERATORS[kind](rng, quick=True)
+        wl["kind"] = kind
+        if kind == "fit" and wl["kwargs"]["method"] == "auto":
+            wl["kwargs"]["method"] = ["leastsq", "powell", "lbfgsb"]
+        ctx = enginea.Ctx(wl)
+        ref = ctx.reference()
+        res = []
+        for n_procs in (2, 4):
+            real = run_real(wl, n_procs)
+            res.append(outcome_diff(ref, real) is None)
+        return {"kind": kind, "entry": wl["entry"], "equal": all(res)}
+
+    try:
+        results = batch.run_jobs(job, list(range(n)), wall_limit=1500.0, per_job_limit=600.0, workers=min(4, n))
+    except batch.HarnessError as e:
+        return {"status": "harness-error", "detail": str(e)[:300]}
+    return {"workloads": len(results), "equal_to_serial_reference": sum(1 for r in results if r["equal"]),
+            "by_entry": {r["entry"]: r["equal"] for r in results}, "real_pool_processes": [2, 4]}
